@@ -63,6 +63,29 @@ Proof. intros H. destruct v; try reflexivity. congruence. Qed.
 Lemma failed_consistent e row pre : consistent (failed e row pre).
 Proof. reflexivity. Qed.
 
+(* whenever the write returns, the equality query yields the row *)
+Lemma run_found C T v w var :
+  v <> PNone ->
+  (forall dbv, from_python C T (fk_unwrap T v) = Ok dbv -> readable C T dbv) ->
+  (forall dbv, from_python C T (fk_unwrap T v) = Ok dbv ->
+     exists dbv', from_python C T v = Ok dbv' /\ literal C dbv' = literal C dbv) ->
+  o_write (run C T v w var) = Ok tt -> o_found (run C T v w var) = Some (Ok true).
+Proof.
+  intros Hv Hex Hq. unfold run.
+  destruct (from_python C T (fk_unwrap T v)) as [dbv|e] eqn:Hfrom; [|discriminate].
+  specialize (Hex dbv eq_refl). specialize (Hq dbv eq_refl). destruct Hq as (dbv' & Hfrom' & Hlit').
+  destruct (to_python C T dbv) as [py|e] eqn:Hto; [|discriminate].
+  unfold db_store. destruct (literal C dbv) as [lit|e] eqn:Hlit; cbn [rbind]; [|discriminate].
+  destruct (sqlite_store C (col_affinity T) lit) as [s|e] eqn:Hst; [|discriminate].
+  destruct (Hex lit s Hlit Hst) as [Hread (r & Hcmp & Heq)].
+  destruct (Hread py Hto) as (d & Hd & _).
+  rewrite Hd.
+  assert (Hfound : query_finds C T v s = Ok true).
+  { rewrite query_finds_some by assumption. rewrite Hfrom'. cbn [rbind]. rewrite Hlit'. cbn [rbind].
+    rewrite Hcmp. cbn [rbind]. rewrite Heq, Hd. reflexivity. }
+  intros _. destruct w, var; cbn [o_found]; now rewrite Hfound.
+Qed.
+
 Lemma run_consistent C T v w var :
   v <> PNone ->
   (forall dbv, from_python C T (fk_unwrap T v) = Ok dbv -> exact C T dbv) ->
